@@ -1610,7 +1610,7 @@ class NRL(MonochromaticRemap):
             out[~linear_region] = self.knee
         else:
             # calculate the log values
-            extreme_data = numpy.clip(amplitude[~linear_region], changeover, amplitude_max)
+            extreme_data = numpy.clip(amplitude[~linear_region].astype('float64'), changeover, amplitude_max)
             log_values = (extreme_data - changeover)/(amplitude_max - changeover) + 1
             # this is now linearly scaled from 1 to 2, apply log_2 and then scale appropriately
             out[~linear_region] = numpy.log2(log_values)*(max_index - self.knee) + self.knee
